@@ -12,7 +12,7 @@ ALPHABET = ["C", "N", "O", "*"]
 META = dict(
     bounds=dict(
         quick="all pairs of graphs (connected or not) with <=3 nodes each, both orders of the arguments, plus 4x3 and 3x4 "
-              "pairs with <=3 bonds; element in {C,N}, bond order in {1,2}; mcs=True and mcs=False; both MCSMatcher "
+              "pairs with <=3 bonds and the 4-ring against the 4-chain; one matcher object re-used for three searches in a row; element in {C,N}, bond order in {1,2}; mcs=True and mcs=False; both MCSMatcher "
               "copies (Graph/Matcher and Graph/MTG)",
         thorough="all pairs up to 4x4 nodes (<=4 bonds)",
     ),
@@ -95,6 +95,17 @@ def h_mcs(E, an, aedges, bn, bedges, impl):
         else:
             sizes[mcs] = max([len(d) for d in g12], default=0)
     E.check(sizes[True] != sizes[False], "maximum-size-agrees-between-modes", dict(info, sizes=sizes))
+    # one matcher object used for several searches in a row: (B, A) first, then (A, B); each answer must be right
+    mm = MCSMatcher()
+    for X, Y, tag in ((B, A, "B,A"), (A, B, "A,B"), (B, A, "B,A again")):
+        mm.find_common_subgraph(X, Y, mcs=True)
+        maps = mm.get_mappings("G1_to_G2") if impl == "matcher" else mm.get_mappings()
+        bad = []
+        for d in maps:
+            ok = isinstance(d, dict) and set(d) <= set(X.nodes) and set(d.values()) <= set(Y.nodes) and len(set(d.values())) == len(d)
+            bad.append(NOT(common_induced(X, Y, d)) if ok else True)
+        bad.append(len({len(d) for d in maps}) > 1 or (max([len(d) for d in maps], default=0) != sizes[True]))
+        E.check(OR(bad), "re-used-matcher-object-gives-a-wrong-answer", dict(info, call=tag, got=[sorted(d.items()) for d in maps]))
     E.note(nontrivial=sizes[True] >= 2)
     E.observe((sizes[True], sizes[False]))
 
@@ -108,8 +119,10 @@ def shards(tier, seed):
     four = [(4, es) for es in all_shapes(4) if len(es) <= (3 if tier == "quick" else 4)]
     pairs = list(itertools.product(small, small))
     pairs += [(a, b) for a in four for b in small if b[0] == 3] + [(a, b) for a in small if a[0] == 3 for b in four]
+    ring4, p4 = (4, [[1, 2], [1, 3], [2, 4], [3, 4]]), (4, [[1, 2], [2, 3], [3, 4]])
+    pairs += [(ring4, p4), (p4, ring4)]
     if tier == "thorough":
-        pairs += list(itertools.product(four, four))
+        pairs += [pr for pr in itertools.product(four, four) if pr not in pairs]
     for i, ((an, ae), (bn, be)) in enumerate(pairs):
         impl = "matcher" if (tier == "thorough" or i % 3 != 2) else "mtg"
         sh.append(dict(h="mcs", params=dict(an=an, aedges=ae, bn=bn, bedges=be, impl=impl)))
